@@ -7,6 +7,7 @@ import PhQVerif.Core.Check
 import PhQVerif.Core.Lex
 import PhQVerif.Core.Angle
 import PhQVerif.Core.Direction
+import PhQVerif.Core.UnitCheck
 import PhQVerif.Generated.Tables
 import PhQVerif.Generated.Kernels
 
@@ -89,5 +90,19 @@ def C11kernel (t : Entry × Entry) : Bool := t.1.tree.beq t.2.tree
 def C10dir (e : Entry) : Bool := checkDirection classes e
 /-- C10: magnitudes. -/
 def C10mag (e : Entry) : Bool := checkMagnitude classes e
+
+/-- C06: every unit's symbol expands to the dimension set its type declares. -/
+def C06unit (u : UnitType) : Bool := checkUnitDims u
+/-- C06: every quantity class declares its unit type's dimension set. -/
+def C06class (c : ClassInfo) : Bool := checkClassDims unitTypes c
+/-- C07: coherence of the unit systems. -/
+def C07 (u : UnitType) : Bool := checkUnitSystem unitTypes baseTypes unitSystemValues standardUnitSystem u
+/-- C08: tables total and unambiguous (unit types / plain enumerations). -/
+def C08unit (u : UnitType) : Bool := checkEnumTables true u
+def C08plain (u : UnitType) : Bool := checkEnumTables false u
+/-- C08: every spelling denotes the magnitude of the enumerator it maps to. -/
+def C08spell (u : UnitType) : Bool := checkSpellings u
+/-- C01: kernel constants within `4 · 2^-p` of the oracle's exact factor. -/
+def C01 (fm : Fm) (uk : UnitType × UnitKernels) : Bool := checkKernels fm 4 uk.1 uk.2
 
 end PhQVerif.Chk
